@@ -1124,6 +1124,65 @@ def normalise_small_forms(tree: ast.Module) -> int:
     return total
 
 
+def _eval_order(n: ast.AST):
+    """Sub-expressions of a simple statement / expression in the order Python evaluates them, as (node, conditional)."""
+    def go(x, cond):
+        if x is None:
+            return
+        if isinstance(x, ast.Assign):
+            yield from go(x.value, cond)
+            for t in x.targets:
+                yield from go(t, cond)
+        elif isinstance(x, ast.AnnAssign):
+            yield from go(x.value, cond)
+            yield from go(x.target, cond)
+        elif isinstance(x, ast.AugAssign):
+            yield from go(x.target, cond)
+            yield from go(x.value, cond)
+        elif isinstance(x, (ast.Expr, ast.Return)):
+            yield from go(x.value, cond)
+        elif isinstance(x, ast.Raise):
+            yield from go(x.exc, cond)
+            yield from go(x.cause, cond)
+        elif isinstance(x, ast.Assert):
+            yield from go(x.test, cond)
+            yield from go(x.msg, True)
+        elif isinstance(x, ast.BoolOp):
+            for i, v in enumerate(x.values):
+                yield from go(v, cond or i > 0)
+        elif isinstance(x, ast.IfExp):
+            yield from go(x.test, cond)
+            yield from go(x.body, True)
+            yield from go(x.orelse, True)
+        elif isinstance(x, ast.Call):
+            yield from go(x.func, cond)
+            for a_ in x.args:
+                yield from go(a_, cond)
+            for k_ in x.keywords:
+                yield from go(k_.value, cond)
+            yield (x, cond)
+        elif isinstance(x, (ast.Lambda, ast.ListComp, ast.SetComp, ast.DictComp, ast.GeneratorExp)):
+            yield (x, cond)
+        elif isinstance(x, ast.AST):
+            for c_ in ast.iter_child_nodes(x):
+                if isinstance(c_, (ast.expr, ast.keyword, ast.Slice)):
+                    yield from go(c_, cond)
+            if isinstance(x, ast.expr):
+                yield (x, cond)
+    yield from go(n, False)
+
+
+def _evaluated_first(stmt: ast.AST, target: ast.Name) -> bool:
+    for (x, cond) in _eval_order(stmt):
+        if x is target:
+            return not cond
+        if isinstance(x, ast.Call) and isinstance(x.func, ast.Name) and x.func.id == 'super' and not x.args:
+            continue                      # `super()` runs nothing of the program's
+        if isinstance(x, (ast.Call, ast.Lambda, ast.ListComp, ast.SetComp, ast.DictComp, ast.GeneratorExp)):
+            return False
+    return False
+
+
 def inline_single_use_temps(tree: ast.Module) -> int:
     """`t = E` immediately followed by a simple statement (or an `if` test) that reads `t` exactly once, `t` appearing nowhere
     else in the function: read with `E` in the place of `t` (an explaining variable for an argument or an operand).  Not
@@ -1154,8 +1213,9 @@ def inline_single_use_temps(tree: ast.Module) -> int:
                         t = a.targets[0].id
                         if t in params or uses.get(t, 0) != 2:
                             continue
-                        if isinstance(a.value, (ast.Dict, ast.List, ast.Set, ast.ListComp, ast.DictComp, ast.SetComp, ast.GeneratorExp, ast.Lambda, ast.Yield, ast.Await)):
-                            continue
+                        if isinstance(a.value, (ast.Dict, ast.List, ast.Set, ast.ListComp, ast.DictComp, ast.SetComp, ast.GeneratorExp, ast.Lambda, ast.Yield, ast.Await,
+                                                ast.IfExp, ast.JoinedStr, ast.BoolOp)):
+                            continue        # containers built in place; and choices / formatted pieces, which read better under their names
                         if isinstance(b, (ast.Assign, ast.AugAssign, ast.AnnAssign, ast.Expr, ast.Return, ast.Raise, ast.Assert)):
                             scope_roots = [b]
                         elif isinstance(b, (ast.If, ast.While)):
@@ -1175,6 +1235,12 @@ def inline_single_use_temps(tree: ast.Module) -> int:
                                 hits.append((r_, False))
                             walk(r_, False)
                         if len(hits) != 1 or hits[0][1]:
+                            continue
+                        if any(isinstance(j_, ast.JoinedStr) and any(y is hits[0][0] for y in ast.walk(j_)) for r_ in scope_roots for j_ in ast.walk(r_)):
+                            continue        # not into a formatted string
+                        # moving E to where `t` is read must not move it past anything that runs: if E makes a call, the read has to
+                        # be the first thing the next statement evaluates, unconditionally (`x[t] = g()` evaluates g() first)
+                        if any(isinstance(y, ast.Call) for y in ast.walk(a.value)) and not _evaluated_first(b if not isinstance(b, (ast.If, ast.While)) else b.test, hits[0][0]):
                             continue
                         if isinstance(b, (ast.Assign, ast.AugAssign)) and any(isinstance(y, ast.Name) and y.id == t and isinstance(y.ctx, ast.Store) for y in ast.walk(b)):
                             continue
